@@ -467,3 +467,8 @@ Definition kh_lookup_lines_old (x : ext) (lines : list text) (host addr : text) 
   | Some st => kh_lookup_st_old x st host addr port
   | None => None
   end.
+
+(* read_known_hosts([file1; file2; ...]) then match: every file is loaded by its own load() call, so a
+   line never spans two files; the texts are the file contents as read in text mode *)
+Definition kh_lookup_files (x : ext) (ts : list text) (host addr : text) (port : Z) : option kh_result :=
+  kh_lookup_lines x (flat_map splitlines ts) host addr port.
